@@ -485,6 +485,14 @@ def tree_cases(chk, n):
     cases = []
     for i in range(n):
         base = random_graph_input(rng)
+        if i % 7 == 3:
+            # object-valued keys that do not start with a letter (JSON-LD, JSON Schema, Mongo, XML-to-JSON, years): the class made for the
+            # object and the field that holds it must still be two names -- in the nested layout they live in one class body
+            ks = rng.sample(["@context", "$ref", "2020", "1st", "#text", "@type", "$date", "3d_model"], rng.choice([1, 2, 3]))
+            base = {k: {"v%d" % j: rng.choice([1, "s", 2.5]), "w": j} for j, k in enumerate(ks)}
+            base["name"] = "x"
+            if rng.random() < 0.5:
+                base[ks[0]]["inner"] = {"deep": 1, ks[-1]: {"z": 1}}
         samples = [base] + [perturb(rng, base) for _ in range(rng.choice([0, 1]))]
         fw = rng.choice(FRAMEWORKS)
         pol = rng.choice([[("number", 20)], [("number", 20)], [("exact", 0)], DR.POLICIES[1]])
